@@ -65,12 +65,23 @@ class Codec:
         return None
 
     def render_key(self, k):
-        if self.disk == 'json':
-            return 'o' + self.key_pickle(k).hex()
-        r = self.native(k, True)
-        if r is not None:
-            return r
-        return 'o' + self.key_pickle(k).hex()
+        """Non-native keys are identified by their serialized form.  An object that
+        comes back from the cache may serialize differently from the equal object
+        that went in (pickle memoizes by identity: known finding D12), so a returned
+        key is rendered as the registered key it is deeply equal to."""
+        if self.disk != 'json':
+            r = self.native(k, True)
+            if r is not None:
+                return r
+        h = self.key_pickle(k).hex()
+        reg = self.__dict__.setdefault('_keyreg', {})
+        if h in reg:
+            return 'o' + h
+        for h2, k2 in reg.items():
+            if deep_eq(k, k2):
+                return 'o' + h2
+        reg[h] = k
+        return 'o' + h
 
     def render_val(self, v):
         if isinstance(v, io.IOBase) or hasattr(v, 'read'):
@@ -85,6 +96,19 @@ class Codec:
         if r is not None:
             return r
         return 'o' + self.val_pickle(v).hex()
+
+
+def deep_eq(a, b):
+    """equal value AND equal type, recursively"""
+    if type(a) is not type(b):
+        return False
+    if isinstance(a, (tuple, list)):
+        return len(a) == len(b) and all(deep_eq(x, y) for x, y in zip(a, b))
+    if isinstance(a, dict):
+        return list(a.keys()) == list(b.keys()) and all(deep_eq(a[k], b[k]) for k in a)
+    if isinstance(a, float):
+        return a == b and (a != 0 or str(a) == str(b)) or (a != a and b != b)
+    return a == b
 
 
 def render_sql(v):
